@@ -32,5 +32,26 @@ package geom
 //@   ensures result <==> (allEq && calls == n)
 //@   loop 0 invariant 0 <= i && i <= n && calls == i && allEq
 
+
+// member comparison closures (what structureEq is handed)
+//@ func exactEqualsComparator.multiPointsEq$1
+//@   requires 0 <= i && i < len(mp1.points) && 0 <= j && j < len(mp2.points) && c.toleranceSq >= 0
+//@   requires (mp1.points[i].full ==> CoordFin(mp1.points[i].coords)) && (mp2.points[j].full ==> CoordFin(mp2.points[j].coords))
+//@   ensures mp1.points[i].full != mp2.points[j].full ==> !result
+//@   ensures !mp1.points[i].full && !mp2.points[j].full ==> result
+//@   ensures mp1.points[i].full && mp2.points[j].full && c.toleranceSq == 0 ==> (result <==> CoordsSame(mp1.points[i].coords, mp2.points[j].coords))
+
+// the backtracking matcher: index safety, and a failed attempt leaves the
+// candidate list exactly as it found it
+//@ func validPermutation$1
+//@   requires level >= 0 && eq != nil
+//@   modifies choices
+//@   ensures !result ==> len(choices) == old(len(choices)) && (forall k :: 0 <= k && k < len(choices) ==> choices[k] == old(choices[k]))
+//@   ensures region(choices) == old(region(choices)) && offset(choices) == old(offset(choices)) && cap(choices) == old(cap(choices)) && len(choices) <= old(len(choices))
+//@   ensures forall k :: k >= old(len(choices)) ==> choices[k] == old(choices[k])
+//@   loop 0 invariant -1 <= rangeindex && len(choices) == old(len(choices)) && region(choices) == old(region(choices)) && offset(choices) == old(offset(choices)) && cap(choices) == old(cap(choices))
+//@   loop 0 invariant forall k :: 0 <= k ==> choices[k] == old(choices[k])
+
 //@ func validPermutation
-//@   noverify
+//@   requires n >= 0 && eq != nil
+//@   loop 0 invariant 0 <= i && i <= n && len(choices) == n
